@@ -17,7 +17,10 @@ let intern s =
   | None -> let i = Hashtbl.length tbl in Hashtbl.add tbl s i; Hashtbl.add rev_tbl i s; i
 let name_of i = try Hashtbl.find rev_tbl i with Not_found -> "?op" ^ string_of_int i
 let olog s = OLog (nat_of_int (intern s))
-let oseq s = OSeq (nat_of_int (intern s))
+(* silent constructions: even identifier = the node class answers is_simple() before type analysis
+   (displays, a single formatted value), odd = it does not (several f-string parts, slice objects) *)
+let oseq s = OSeq (nat_of_int (2 * intern s))
+let oseq_ns s = OSeq (nat_of_int (2 * intern s + 1))
 
 (* ---- token parser ---- *)
 let toks = ref ([] : string list)
@@ -72,14 +75,14 @@ let rec p_expr () : expr =
            let lo = part () in let hi = part () in let st = part () in
            (* a[lo:hi] is a SliceIndexNode, a[lo:hi:step] an IndexNode with a SliceNode index *)
            if st = ENone then EOp (OGetSlice, [a; lo; hi])
-           else EOp (OGetItem, [a; EOp (oseq "slice", [lo; hi; st])])
+           else EOp (OGetItem, [a; EOp (oseq_ns "slice", [lo; hi; st])])
   | "T" -> let nm = next () in let a = p_expr () in EOp (OGetAttr (nat_of_int (intern nm)), [a])
   | "X" -> let which = next () in let n = int_of_string (next ()) in
            let rec go i = if i = 0 then [] else let e = p_expr () in e :: go (i - 1) in
            EMinMax (olog (if which = "min" then "lt" else "gt"), go n)
   | "F" -> let n = int_of_string (next ()) in
            let rec go i = if i = 0 then [] else let e = p_expr () in EOp (olog "format", [e]) :: go (i - 1) in
-           EOp (oseq "join", go n)
+           EOp ((if n = 1 then oseq "join" else oseq_ns "join"), go n)
   | "Q" -> (* call of a C function: Q <name> <nreq> <ndecl> <default,..> <-|+ recv> <npos> <nkw> pos.. (idx expr).. *)
            let fname = next () in
            let nreq = int_of_string (next ()) in let ndecl = int_of_string (next ()) in
@@ -106,7 +109,7 @@ and p_arg () : string * expr =
 let p_slice_parts () =
   let part () = match next () with "-" -> ENone | _ -> p_expr () in
   let lo = part () in let hi = part () in
-  EOp (oseq "slice", [lo; hi; ENone])
+  EOp (oseq_ns "slice", [lo; hi; ENone])
 
 let rec p_starget () : starget =
   match next () with
@@ -221,7 +224,7 @@ and pop (o : op) (args : val0 list) : string =
             "call(" ^ String.concat "," (pv f :: parts) ^ ")"
       end else plain nm
   | OSeq id ->
-      let (nm, shape) = split_shape (name_of (int_of_nat id)) in
+      let (nm, shape) = split_shape (name_of (int_of_nat id / 2)) in
       (match nm with
        | "tuple" | "list" | "set" ->
            let parts = List.concat (List.map2 (fun k v -> if k = "s" then star_items v else [pv v]) shape args) in
